@@ -1,6 +1,6 @@
 use crate::nodes::{
     Attribute, Attributes, Block, FunctionBodyTokens, FunctionReturnType, FunctionVariadicType,
-    GenericParameters, Identifier, Token, TypedIdentifier,
+    GenericParameters, Identifier, Token, TriviaKind, TypedIdentifier,
 };
 
 /// Tokens associated with a function name.
@@ -388,6 +388,18 @@ impl FunctionStatement {
     pub fn remove_method(&mut self) {
         if let Some(method_name) = self.name.remove_method() {
             self.name.push_field(method_name);
+
+            if let Some(tokens) = &mut self.tokens {
+                // keep the existing commas attached to the parameters they follow
+                if !self.parameters.is_empty() || self.is_variadic {
+                    tokens.parameter_commas.insert(
+                        0,
+                        Token::from_content(",")
+                            .with_trailing_trivia(TriviaKind::Whitespace.with_content(" ")),
+                    );
+                }
+            }
+
             self.parameters.insert(0, TypedIdentifier::new("self"));
         }
     }
